@@ -246,6 +246,7 @@ func (o *Observation[C]) wantBeNotified(r *pool.Message) bool {
 		return true
 	}
 	now := time.Now()
+	now = verifNow(now)
 
 	o.private.mutex.Lock()
 	defer o.private.mutex.Unlock()
